@@ -4,6 +4,30 @@ pub use debruijn::kmer::*;
 
 pub type KmerK31 = VarIntKmer<u64, K31>;
 
+// VarIntKmer types whose K fills the storage integer: legal for users (KmerSize is a public
+// trait), never instantiated by the crate's own aliases.
+macro_rules! full_width {
+    ($name:ident, $k:expr) => {
+        #[derive(Debug, Hash, Copy, Clone, Ord, PartialOrd, Eq, PartialEq)]
+        pub struct $name;
+        impl KmerSize for $name {
+            #[inline(always)]
+            fn K() -> usize {
+                $k
+            }
+        }
+    };
+}
+full_width!(KF8, 8);
+full_width!(KF16, 16);
+full_width!(KF32, 32);
+full_width!(KF64, 64);
+pub type Kmer4v = VarIntKmer<u8, K4>;
+pub type Kmer8v = VarIntKmer<u16, KF8>;
+pub type Kmer16v = VarIntKmer<u32, KF16>;
+pub type Kmer32v = VarIntKmer<u64, KF32>;
+pub type Kmer64v = VarIntKmer<u128, KF64>;
+
 /// Call `$f::<K>($args)` for the k-mer type named `$name`.
 #[macro_export]
 macro_rules! with_k {
